@@ -269,7 +269,47 @@ fn reference_plan(job: &Job) -> SimPlan {
     SimPlan::single(job.clone(), vec![], &[0u8; 16], true, true)
 }
 
+/// Several assemblies in one process through the real `FileServerReal`:
+/// a job, a same-names-different-content variant, the first job again.
+pub fn build_realfs_plan(rng: &mut Rng, seed: u64, c: &Corpus) -> SimPlan {
+    let mut jobs: Vec<Job> = Vec::new();
+    let mut tries = 0;
+    while jobs.len() < 2 && tries < 40 {
+        tries += 1;
+        let a = pool_job(seed, rng.below(POOL), c);
+        let b = pool_job(seed, rng.below(POOL), c);
+        if crate::procsim::materialisable(&a).is_err() {
+            continue;
+        }
+        if let (Some(sa), Some(sb)) = (&a.spec, &b.spec) {
+            if sa.roots.len() == 1 && sb.roots.len() == 1 {
+                if let Some(crate::disk::Node::File(d)) = b.disk.nodes.get(&format!("{}/{}", corpus::PROJ, sb.roots[0])) {
+                    // same names, different content: only the root file's text changes
+                    let mut variant = a.clone();
+                    variant.disk.add_file(&sa.roots[0], d.clone());
+                    variant.name = format!("collision-same-name({} <- {})", a.name, b.name);
+                    jobs.push(a.clone());
+                    jobs.push(variant);
+                    if rng.chance(1, 2) {
+                        jobs.push(a.clone());
+                    }
+                }
+            }
+        }
+    }
+    if jobs.is_empty() {
+        jobs.push(pool_job(seed, 0, c));
+    }
+    let n = jobs.len();
+    let keys = rng.bytes16();
+    let reuse: Vec<bool> = (0..n).map(|_| rng.chance(1, 2)).collect();
+    SimPlan { faults: vec![vec![]; n], jobs, threads: vec![ThreadPlan { keys: keys_to_hex(&keys), jobs: (0..n).collect(), reuse, offsets: vec![] }], schedule: vec![], sched_seed: None, switch_16: 0, clock: vec![], lib_pass: false, all_formats: false, realfs: true }
+}
+
 pub fn build_plan(rng: &mut Rng, seed: u64, c: &Corpus) -> SimPlan {
+    if rng.chance(1, 8) {
+        return build_realfs_plan(rng, seed, c);
+    }
     let n_jobs = *rng.pick(&[3, 3, 4, 4, 5, 6, 8, 10]);
     let mut jobs: Vec<Job> = Vec::new();
     while jobs.len() < n_jobs {
@@ -339,7 +379,7 @@ pub fn build_plan(rng: &mut Rng, seed: u64, c: &Corpus) -> SimPlan {
             clock.push((at, sec, rng.below(1_000_000_000) as i64));
         }
     }
-    SimPlan { faults: vec![vec![]; jobs.len()], jobs, threads, schedule: vec![], sched_seed: Some(rng.next()), switch_16: *rng.pick(&[0, 2, 4, 8, 16]), clock, lib_pass: true, all_formats: true }
+    SimPlan { faults: vec![vec![]; jobs.len()], jobs, threads, schedule: vec![], sched_seed: Some(rng.next()), switch_16: *rng.pick(&[0, 2, 4, 8, 16]), clock, lib_pass: true, all_formats: true, realfs: false }
 }
 
 pub fn check_plan(plan: &SimPlan, res: &PlanResult, refs: &BTreeMap<String, Record>) -> Vec<Violation> {
@@ -353,6 +393,25 @@ pub fn check_plan(plan: &SimPlan, res: &PlanResult, refs: &BTreeMap<String, Reco
         };
         if matches!(reference.outcome, Outcome::Panic(_)) || reference.lib.panic.is_some() {
             continue; // C03's business
+        }
+        if plan.realfs {
+            if let Outcome::Panic(p) = &jr.record.outcome {
+                if p.starts_with("SKIPPED") {
+                    continue;
+                }
+            }
+            let a = crate::realfs::comparable(job, reference, true);
+            let b = crate::realfs::comparable(job, &jr.record, false);
+            for ((k, x), (_, y)) in a.iter().zip(b.iter()) {
+                if x != y {
+                    v.push(Violation::new(
+                        &format!("divergence-real-server:{}", k),
+                        format!("job {} argv={:?} (assembly #{} in one process through FileServerReal, server object reused: {}): `{}` differs from the same job alone\n--- alone\n{}\n--- after the earlier assemblies\n{}", job.name, job.argv, jr.pos + 1, jr.reused_server, k, crate::orch::truncate(x, 600), crate::orch::truncate(y, 600)),
+                    ));
+                    break;
+                }
+            }
+            continue;
         }
         let off = plan.threads.get(jr.thread).and_then(|t| t.offsets.get(jr.pos)).copied().unwrap_or(0);
         let env = format!("thread {} keys {} queue position {} reused-server {} handle-offset {} interleaved {} clock-script {}", jr.thread, plan.threads.get(jr.thread).map(|t| t.keys.as_str()).unwrap_or("?"), jr.pos, jr.reused_server, off, res.interleaved(i), !plan.clock.is_empty());
@@ -380,6 +439,25 @@ pub fn run(ctx: &mut Ctx, c: &Corpus) -> Vec<Replay> {
 
     let res = ctx.exec(&plan, "C10");
     ctx.stats.inc("simulated_runs");
+    if plan.realfs {
+        ctx.stats.inc("real_file_server_runs");
+        for jr in &res.runs {
+            ctx.stats.inc("evaluations");
+            ctx.stats.inc("real_file_server_assemblies");
+            if jr.pos > 0 {
+                ctx.stats.inc("dim_real_server_history");
+                let jd = hex128(plan.jobs[jr.job].digest());
+                ctx.stats.note("nontrivial", format!("r:{}:{}:{}", &jd[..16], jr.pos, jr.reused_server));
+            }
+        }
+        let mut seen = std::collections::BTreeSet::new();
+        for v in check_plan(&plan, &res, &refs) {
+            if seen.insert(v.class.clone()) {
+                out.push(ctx.replay("C10", v, plan.clone()));
+            }
+        }
+        return out;
+    }
     ctx.stats.note("interleavings", res.schedule_digest());
     ctx.stats.add("scheduling_points", res.points);
     ctx.stats.add("thread_switches", res.switches);
